@@ -216,6 +216,9 @@ func genInjectSuite(r *hx.R, tier, scratch, prop string) (*hx.Suite, error) {
 		case "C04":
 			var names []string
 			k := 1 + r.Intn(6)
+			if r.Chance(0.15) {
+				k = 9 + r.Intn(32) // long requests: many misses in one call
+			}
 			hasRes, hasUnres := false, false
 			rs := map[string]bool{}
 			for _, x := range resolvable {
@@ -265,11 +268,21 @@ func genInjectSuite(r *hx.R, tier, scratch, prop string) (*hx.Suite, error) {
 			cur := hosts
 			nsteps := 2 + r.Intn(4)
 			wbDir := filepath.Join(scratch, fmt.Sprintf("wb%d", i))
+			varyRequest := r.Chance(0.5)
 			for j := 0; j < nsteps; j++ {
 				if j > 0 && r.Chance(0.6) {
 					cur = remakeHostNodes(r, cur)
 				}
-				steps = append(steps, doInject(cache, cur, init, names, image0, wbDir, j == nsteps-1 || r.Chance(0.3)))
+				req := names
+				if varyRequest && j > 0 {
+					// another selection on the same cache: nothing of an earlier injection may leak into this one
+					perm2 := r.Perm(len(resolvable))
+					req = nil
+					for _, q := range perm2[:1+r.Intn(len(resolvable))] {
+						req = append(req, resolvable[q])
+					}
+				}
+				steps = append(steps, doInject(cache, cur, init, req, image0, wbDir, j == nsteps-1 || r.Chance(0.3)))
 			}
 			hosts = cur
 			richHosts = cur
